@@ -5,7 +5,7 @@ import strict_tlv as S
 
 PROP = 'C07'
 TITLE = 'Packet decoders accept exactly the well-formed packets'
-LEAN_TARGETS = ['NdnProofs.Props.C07', 'NdnGen.C07']
+LEAN_TARGETS = ['NdnProofs.Props.C07', 'NdnGen.C07', 'NdnProofs.Props.TlvVarGen', 'NdnGen.TlvVar']
 THEOREMS = [
     'Ndn.C07.parse_total', 'Ndn.C07.decodePacket_error_classes', 'Ndn.C07.shipped_decoders_error_classes',
     'Ndn.C07.decodeName_error_classes',
@@ -17,6 +17,9 @@ THEOREMS = [
     'Ndn.C07.packet_strict_agrees', 'Ndn.C07.packet_strict_refines', 'Ndn.C07.packet_only_overruns_differ',
     'Ndn.C07.packet_strict_accepts_well_nested', 'Ndn.C07.packet_accept_iff_strict',
     'Ndn.C07.shipped_decoders_strict', 'Ndn.C07.shipped_only_overruns_differ',
+    # tlv_var.py readers TRANSLATED from their source text on every run (harness/py2lean.py -> lean/NdnGen/TlvVar.lean)
+    # = the model functions the decoder model reads Type / Length numbers with, error classes included
+    'Ndn.TlvVarGen.all_translated', 'Ndn.TlvVarGen.parse_tl_num_eq', 'Ndn.TlvVarGen.parse_and_check_tl_eq',
 ]
 PARTIAL = {
     'Ndn.C07.strict_implies_accept_partial':
@@ -32,6 +35,9 @@ PARTIAL = {
 }
 TRUSTED = [
     'C07: the four packet schemas are regenerated from the live classes on every run; Python slicing / struct semantics are CPython',
+    'C07 (tlv_var.py): parse_tl_num and parse_and_check_tl are translated from the source text by harness/py2lean.py and '
+    'proved equal to the model functions for all inputs (IndexError / struct.error classes included); trusted there: the '
+    'translator and lean/NdnModel/PySem.lean (the reading of CPython ints, struct.unpack, indexing, slicing)',
     'C07: "time proportional to the input" is shown as: the scan loop of a level never exhausts fuel = len+1 (one unit per element); wall-clock is not measured',
 ]
 RULE = ('valid Interest / Data / LpPacket / certificate wires built by the library (all optional-field combinations, signed '
@@ -112,11 +118,13 @@ def _rand_name(rng):
 
 
 def _valid_wire(rng, kind):
-    from ndn import encoding as enc
-    from ndn.encoding import ndnlp_v2 as lp
-    from ndn.security import DigestSha256Signer, HmacSha256Signer
-    from ndn.app_support import security_v2 as sv
-    signer = rng.choice([None, None, DigestSha256Signer(), HmacSha256Signer('k', b'key12345')])
+    """a well-formed packet of this kind as a conforming encoder (python-ndn's make_interest / make_data / LpPacket.encode
+    / new_cert among them) writes it: shortest Type / Length / integer forms, fields in the library's declared order.
+    Written with pktcommon's packet writers, NOT by calling the library: these wires are the decoder's inputs, and they
+    must exist (and stay the same) whatever state the library's encoders and signers are in."""
+    import hashlib
+    import pktcommon as K
+    signer = rng.choice([None, None, {'type': 0}, {'type': 4, 'key_name': [K.gen_comp(b'k')], 'key': b'key12345'}])
     name = _rand_name(rng)
     big = rng.random() < 0.06       # wires of several kB
 
@@ -126,62 +134,73 @@ def _valid_wire(rng, kind):
             return blk * rng.choice([40, 70, 130, 260])
         return T.random_bytes(rng)
     if kind == 'interest':
-        ip = enc.InterestParam(can_be_prefix=rng.random() < 0.5, must_be_fresh=rng.random() < 0.5,
-                               nonce=rng.choice([None, rng.getrandbits(32)]),
-                               lifetime=rng.choice([None, 0, 4000, 70000, 2 ** 33]),
-                               hop_limit=rng.choice([None, 0, 255]),
-                               forwarding_hint=[_rand_name(rng) for _ in range(rng.choice([0, 0, 1, 2]))])
+        ip = dict(can_be_prefix=rng.random() < 0.5, must_be_fresh=rng.random() < 0.5,
+                  nonce=rng.choice([None, rng.getrandbits(32)]),
+                  lifetime=rng.choice([None, 0, 4000, 70000, 2 ** 33]),
+                  hop_limit=rng.choice([None, 0, 255]),
+                  forwarding_hint=[_rand_name(rng) for _ in range(rng.choice([0, 0, 1, 2]))])
         ap = rng.choice([None, None, b'', blob()])
-        if signer is not None and isinstance(signer, DigestSha256Signer):
-            signer = DigestSha256Signer(for_interest=True)
-        return bytes(enc.make_interest(name, ip, ap, signer=signer))
+        if signer is not None and signer['type'] == 0:
+            # a digest-"signed" Interest carries SignatureTime and SignatureNonce (fixed by the name, not by the clock)
+            h = hashlib.sha256(b''.join(name)).digest()
+            signer = {'type': 0, 'nonce': int.from_bytes(h[:8], 'big'), 'time': 1700000000000 + int.from_bytes(h[8:12], 'big')}
+        return K.build_interest(name, app=ap, sig=signer, **ip)
     if kind == 'data':
-        mi = enc.MetaInfo(content_type=rng.choice([None, 0, 2, 300]), freshness_period=rng.choice([None, 0, 1000, 2 ** 40]),
-                          final_block_id=rng.choice([None, T.random_comp(rng)]))
-        return bytes(enc.make_data(name, mi, rng.choice([None, b'', blob()]), signer=signer))
+        mi = dict(content_type=rng.choice([None, 0, 2, 300]), freshness_period=rng.choice([None, 0, 1000, 2 ** 40]),
+                  final_block_id=rng.choice([None, T.random_comp(rng)]))
+        return K.build_data(name, mi, rng.choice([None, b'', blob()]), signer)
     if kind == 'lp':
         inner = _valid_wire(rng, rng.choice(['interest', 'data']))
-        pkt = lp.LpPacket()
-        pkt.lp_packet = lp.LpPacketValue()
-        v = pkt.lp_packet
+        v = {}
         if rng.random() < 0.4:
-            v.pit_token = bytes(rng.getrandbits(8) for _ in range(rng.choice([0, 4, 8, 32])))
+            v['pit_token'] = K.w_tlv(0x62, bytes(rng.getrandbits(8) for _ in range(rng.choice([0, 4, 8, 32]))))
         if rng.random() < 0.4:
-            v.nack = lp.NetworkNack()
-            v.nack.nack_reason = rng.choice([None, 0, 50, 150, 2 ** 40])
+            reason = rng.choice([None, 0, 50, 150, 2 ** 40])
+            v['nack'] = K.w_tlv(0x320, b'' if reason is None else K.w_uint(0x321, reason))
         if rng.random() < 0.2:
-            v.congestion_mark = rng.choice([0, 1, 2 ** 20])
+            v['congestion_mark'] = K.w_uint(0x340, rng.choice([0, 1, 2 ** 20]))
         if rng.random() < 0.1:
-            v.frag_index = 0
+            v['frag_index'] = K.w_uint(0x52, 0)
         if rng.random() < 0.1:
-            v.frag_count = 1
+            v['frag_count'] = K.w_uint(0x53, 1)
         if rng.random() < 0.2:
-            v.non_discovery = True
+            v['non_discovery'] = K.w_tlv(0x34c, b'')
         if rng.random() < 0.15:
-            v.incoming_face_id = rng.choice([0, 255, 256, 2 ** 32, 2 ** 64 - 1])
+            v['incoming_face_id'] = K.w_uint(0x32c, rng.choice([0, 255, 256, 2 ** 32, 2 ** 64 - 1]))
         if rng.random() < 0.15:
-            v.next_hop_face_id = rng.choice([0, 300, 70000])
+            v['next_hop_face_id'] = K.w_uint(0x330, rng.choice([0, 300, 70000]))
         if rng.random() < 0.15:
-            v.cache_policy = lp.CachePolicy()
-            v.cache_policy.cache_policy_type = rng.choice([None, 1, 1000])
+            cpt = rng.choice([None, 1, 1000])
+            v['cache_policy'] = K.w_tlv(0x334, b'' if cpt is None else K.w_uint(0x335, cpt))
         if rng.random() < 0.15:
             # (never both: see ACK_TXSEQ_NOTE)
             if rng.random() < 0.5:
-                v.ack = T.random_bytes(rng)
+                v['ack'] = K.w_tlv(0x344, T.random_bytes(rng))
             else:
-                v.tx_sequence = bytes(rng.getrandbits(8) for _ in range(8))
+                v['tx_sequence'] = K.w_tlv(0x348, bytes(rng.getrandbits(8) for _ in range(8)))
         if rng.random() < 0.1:
-            v.prefix_announcement = T.random_bytes(rng)
+            v['prefix_announcement'] = K.w_tlv(0x350, T.random_bytes(rng))
         if rng.random() < 0.85:
-            v.fragment = inner
-        return bytes(pkt.encode())
+            v['fragment'] = K.w_tlv(0x50, inner)
+        order = ['frag_index', 'frag_count', 'pit_token', 'nack', 'incoming_face_id', 'next_hop_face_id', 'cache_policy',
+                 'congestion_mark', 'tx_sequence', 'ack', 'non_discovery', 'prefix_announcement', 'fragment']
+        return K.w_tlv(0x64, b''.join(v.get(k, b'') for k in order))
     if kind == 'cert':
         from datetime import datetime, timedelta
-        s2 = signer or DigestSha256Signer()
+        s2 = signer or {'type': 0}
         start = datetime(2000 + rng.randint(0, 60), rng.randint(1, 12), rng.randint(1, 28), rng.randint(0, 23), 0, 0)
-        _, w = sv.new_cert(name + [sv.KEY_COMPONENT, T.random_comp(rng)], sv.SELF_COMPONENT,
-                           T.random_bytes(rng), s2, start, start + timedelta(days=rng.randint(1, 4000)))
-        return bytes(w)
+        # <identity>/KEY/<key id>/self/<version>, MetaInfo {ContentType KEY, FreshnessPeriod 1 h}, the key bits, and a
+        # ValidityPeriod { NotBefore NotAfter } of two 15-character ISO 8601 basic-format times inside the SignatureInfo
+        cname = name + [K.gen_comp(b'KEY'), T.random_comp(rng), K.gen_comp(b'self')]
+        pub = T.random_bytes(rng)
+        end = start + timedelta(days=rng.randint(1, 4000))
+        ver = 1700000000000 + int.from_bytes(hashlib.sha256(b''.join(cname)).digest()[:4], 'big')
+        cname.append(K.gen_comp(ver.to_bytes(8, 'big'), 54))
+
+        def fmt(t):
+            return ('%04d%02d%02dT%02d%02d%02d' % (t.year, t.month, t.day, t.hour, t.minute, t.second)).encode()
+        validity = K.w_tlv(0xfd, K.w_tlv(0xfe, fmt(start)) + K.w_tlv(0xff, fmt(end)))
+        return K.build_data(cname, {'content_type': 2, 'freshness_period': 3600000}, pub, s2, validity)
     raise ValueError(kind)
 
 
@@ -683,15 +702,22 @@ def _gram_fields(rng, fs):
     return b''.join(items)
 
 
+def _src_fields(kind):
+    """the field table the source declares for this packet (the grammar / random streams aim at what the decoder
+    recognises); when it cannot be read, the table of the format documents - a generator never fails on the library"""
+    try:
+        return T.class_schema(_kinds()[kind]['cls'])
+    except Exception:     # noqa
+        return SPEC[kind]
+
+
 def _grammar_wire(rng, kind):
-    K = _kinds()[kind]
-    body = _gram_fields(rng, T.class_schema(K['cls']))
-    return T.tl(K['outer']) + T.tl(len(body)) + body
+    body = _gram_fields(rng, _src_fields(kind))
+    return T.tl(_OUTER[kind]) + T.tl(len(body)) + body
 
 
 def _random_wire(rng, kind):
     """uniformly random bytes / a random sequence of TLV-shaped elements with the Types of this packet, up to ~2 kB"""
-    K = _kinds()[kind]
     if rng.random() < 0.5:
         body = bytes(rng.getrandbits(8) for _ in range(rng.choice([rng.randint(0, 40), rng.randint(0, 300), rng.randint(300, 2500)])))
     else:
@@ -705,14 +731,14 @@ def _random_wire(rng, kind):
                 types.append(e[1])
                 if e[0] == 'M':
                     walk(e[3])
-        walk(T.class_schema(K['cls']))
+        walk(_src_fields(kind))
         body = b''
         for _ in range(rng.choice([1, 3, 8, 30, 120])):
             t = rng.choice(types) if rng.random() < 0.8 else rng.getrandbits(rng.choice([3, 8, 16]))
             pl = bytes(rng.getrandbits(8) for _ in range(rng.choice([0, 1, 2, 4, 8, 20])))
             ln = len(pl) if rng.random() < 0.9 else rng.getrandbits(8)
             body += T.tl(t) + T.tl(ln) + pl
-    return T.tl(K['outer']) + T.tl(len(body)) + body
+    return T.tl(_OUTER[kind]) + T.tl(len(body)) + body
 
 
 def cases(rng, tier):
@@ -766,7 +792,6 @@ def cases(rng, tier):
             kind = rng.choice(['interest', 'data', 'lp', 'cert'])
             yield {'kind': kind, 'wire': _random_wire(rng, kind).hex(), 'mut': 'random'}
         else:
-            from ndn.encoding import Name
             comps = _rand_name(rng)
             if rng.random() < 0.3:
                 comps.insert(rng.randint(0, len(comps)), rng.choice(ODD_COMPS))
@@ -774,7 +799,8 @@ def cases(rng, tier):
                 n = rng.choice([252, 253, 300, 3000])
                 comps.append(T.tl(8) + T.tl(n) + bytes(rng.getrandbits(8) for _ in range(8)) * (n // 8 + 1))
                 comps[-1] = comps[-1][:len(T.tl(8) + T.tl(n)) + n]
-            w = bytes(Name.to_bytes(comps))
+            body = b''.join(comps)
+            w = b'\x07' + T.tl(len(body)) + body
             w, mut = _mutate(rng, w)
             yield {'kind': 'name', 'wire': w.hex(), 'mut': mut}
 
@@ -989,6 +1015,8 @@ def finding_key(case, impl, why):
 # ------------------------------------------------------------------ generated table (lean/NdnGen/C07.lean)
 def extract(repo):
     from props.c08 import _lean_schema
+    import py2lean
+    py2lean.write_generated(repo)      # lean/NdnGen/TlvVar.lean: tlv_var.py translated from the tree under test
     out = ['import NdnModel.CodecWF', 'import NdnModel.PacketEnc', 'import NdnModel.Cert',
            '/- GENERATED on every run by harness/props/c07.py from the live `_encoded_fields` of the four packet',
            '   classes.  Do not edit. -/',
